@@ -38,4 +38,12 @@ PROPS = {
              "leaves or re-tests (invariants: accepted programs never get stuck on a jump; frame isolation). The driver compiles all programs at both "
              "optimisation levels and runs the accepted ones on the VM. Exhaustive to the stated depth.",
         note=_TRUST + "Rejection = Compile returns None or raises. Loops run two iterations by construction."),
+    "C12": dict(
+        claimed=True, level="model_checking",
+        technique="TLC enumerates scope structures, decides acceptance with the TLA+ rule NslStatic!NamesOk (two formulations) and runs the TLA+ semantics NslSem; every program is replayed through the real compiler (accept/reject) and VM (value, final global) - spec->code conformance",
+        text="Function bodies with declarations and uses of a parameter, a global and two local names inside blocks, if, if/else, while, do, for headers "
+             "and un-braced branch/loop bodies are enumerated inside TLC; the visibility rule is a TLA+ operator (recursive and site-by-site formulations "
+             "checked against each other) and NslSem computes the value each accepted program must return, which depends on the declaration each use binds to. "
+             "Every program is compiled at both optimisation levels and the accepted ones are executed. Exhaustive to the stated size.",
+        note=_TRUST + "Rejection = Compile returns None or raises. Parameter/global clashes are not enumerated (not settled by the statement)."),
 }
